@@ -27,15 +27,17 @@ func (r *rng) n(k int) int {
 	return int(r.next() % uint64(k))
 }
 func (r *rng) chance(num, den int) bool { return r.n(den) < num }
-func (r *rng) pick(xs ...string) string  { return xs[r.n(len(xs))] }
+func (r *rng) pick(xs ...string) string { return xs[r.n(len(xs))] }
 
 type genOp struct {
-	kind int // 110 feed, 111 resize
-	data []byte
-	a, b int
+	kind  int // 110 feed, 111 resize
+	data  []byte
+	a, b  int
+	label int // item kind, for attribution
 }
 
 type genCase struct {
+	mask       int
 	id         string
 	mode, grid int
 	w, h       int
@@ -137,117 +139,167 @@ func (r *rng) sgr() string {
 	return s + "m"
 }
 
+// item kinds (attribution of an operation to the property it exercises)
+const (
+	kText    = 1
+	kC0Move  = 2
+	kCsiMove = 3
+	kErase   = 4
+	kScroll  = 5
+	kSgr     = 6
+	kMode    = 7
+	kQuery   = 8
+	kKbd     = 9
+	kString  = 10 // OSC, DCS, ESC intermediates, unsupported CSI
+	kResize  = 11
+	kHostile = 12
+	kOtherC0 = 13
+	kMargins = 14
+	kAltScr  = 15
+	kCount   = 16
+)
+
 type profile struct {
 	wide     bool
-	resize   bool
-	hostile  bool
-	altscr   bool
 	cutAny   bool // cut chunks anywhere (inside sequences)
+	step     bool // one item per feed, for step-mode comparison
+	prefill  bool // start with text on the screen
 	maxItems int
+	mask     int // observation mask written into the case header
+	weights  [kCount]int
 }
 
-func (r *rng) item(p profile, w, h int) string {
-	k := r.n(100)
-	switch {
-	case k < 30:
-		return r.text(p.wide, 2*w)
-	case k < 36:
-		return r.pick("\n", "\r", "\r\n", "\b", "\t", "\x0c", "\x07", "\x7f", "\x00", "\x0b", "\x05")
-	case k < 48: // cursor motion
+func (r *rng) pickKind(p profile) int {
+	total := 0
+	for _, w := range p.weights {
+		total += w
+	}
+	k := r.n(total)
+	for i, w := range p.weights {
+		if k < w {
+			return i
+		}
+		k -= w
+	}
+	return kText
+}
+
+func (r *rng) item(p profile, w, h int) (int, string) {
+	kind := r.pickKind(p)
+	switch kind {
+	case kText:
+		return kind, r.text(p.wide, 2*w)
+	case kC0Move:
+		return kind, r.pick("\n", "\r", "\r\n", "\b", "\t", "\x0c", "\x7f", "\x1bD", "\x1bM", "\n", "\x1bD", "\x1bM")
+	case kOtherC0:
+		return kind, r.pick("\x07", "\x00", "\x0b", "\x05", "\x01", "\x1a", "\x0e", "\x0f")
+	case kCsiMove:
 		switch r.n(9) {
 		case 0:
-			return "\x1b[" + r.param(h) + "A"
+			return kind, "\x1b[" + r.param(h) + "A"
 		case 1:
-			return "\x1b[" + r.param(h) + "B"
+			return kind, "\x1b[" + r.param(h) + "B"
 		case 2:
-			return "\x1b[" + r.param(w) + "C"
+			return kind, "\x1b[" + r.param(w) + "C"
 		case 3:
-			return "\x1b[" + r.param(w) + "D"
+			return kind, "\x1b[" + r.param(w) + "D"
 		case 4:
-			return "\x1b[" + r.param(w) + "G"
+			return kind, "\x1b[" + r.param(w) + "G"
 		case 5:
-			return "\x1b[" + r.param(h) + "d"
+			return kind, "\x1b[" + r.param(h) + "d"
 		case 6:
-			return "\x1b[" + r.smallParam(h) + ";" + r.smallParam(w) + r.pick("H", "f")
+			return kind, "\x1b[" + r.smallParam(h) + ";" + r.smallParam(w) + r.pick("H", "f")
 		case 7:
-			return r.pick("\x1b[s", "\x1b[u", "\x1bD", "\x1bM")
+			return kind, r.pick("\x1b[s", "\x1b[u")
 		default:
-			return "\x1b[" + r.param(h) + ";" + r.param(w) + "H"
+			return kind, "\x1b[" + r.param(h) + ";" + r.param(w) + "H"
 		}
-	case k < 58: // erase / delete
+	case kErase:
 		switch r.n(4) {
 		case 0:
-			return "\x1b[" + r.pick("", "0", "1", "2", "3") + "J"
+			return kind, "\x1b[" + r.pick("", "0", "1", "2", "3") + "J"
 		case 1:
-			return "\x1b[" + r.pick("", "0", "1", "2", "3") + "K"
+			return kind, "\x1b[" + r.pick("", "0", "1", "2", "3") + "K"
 		case 2:
-			return "\x1b[" + r.param(w) + "X"
+			return kind, "\x1b[" + r.param(w) + "X"
 		default:
-			return "\x1b[" + r.param(w) + "P"
+			return kind, "\x1b[" + r.param(w) + "P"
 		}
-	case k < 66: // scrolling
+	case kScroll:
+		switch r.n(4) {
+		case 0:
+			return kind, "\x1b[" + r.param(h) + "S"
+		case 1:
+			return kind, "\x1b[" + r.param(h) + "T"
+		case 2:
+			return kind, "\x1b[" + r.param(h) + "L"
+		default:
+			return kind, "\x1b[" + r.param(h) + "M"
+		}
+	case kMargins:
+		if r.chance(1, 4) {
+			return kind, "\x1b[r"
+		}
+		if r.chance(1, 5) {
+			return kind, "\x1b[" + r.param(h) + ";" + r.param(h) + "r"
+		}
+		return kind, "\x1b[" + r.smallParam(h) + ";" + r.smallParam(h) + "r"
+	case kSgr:
+		return kind, r.sgr()
+	case kMode:
+		n := 1
+		if r.chance(1, 4) {
+			n = 2 + r.n(3)
+		}
+		s := "\x1b[?"
+		for i := 0; i < n; i++ {
+			if i > 0 {
+				s += ";"
+			}
+			s += r.pick("1", "7", "9", "12", "25", "1000", "1002", "1003", "1004", "1005", "1006", "1015", "2004", "7", "7", "1034", "3")
+		}
+		return kind, s + r.pick("h", "l")
+	case kAltScr:
+		return kind, "\x1b[?1049" + r.pick("h", "l")
+	case kQuery:
+		return kind, r.pick("\x1b[c", "\x1b[0c", "\x1b[>c", "\x1b[5n", "\x1b[6n", "\x1b[?u", "\x1b[1c", "\x1b[>0c", "\x1b[6n", "\x1b[n", "\x1b[7n")
+	case kKbd:
 		switch r.n(5) {
 		case 0:
-			return "\x1b[" + r.param(h) + "S"
+			return kind, fmt.Sprintf("\x1b[=%d;%du", r.n(32), r.n(5))
 		case 1:
-			return "\x1b[" + r.param(h) + "T"
+			return kind, fmt.Sprintf("\x1b[>%su", r.pick("", "0", "1", "5", "31", "3", "17"))
 		case 2:
-			return "\x1b[" + r.param(h) + "L"
+			return kind, "\x1b[<" + r.pick("", "1", "2", "5", "0", "40") + "u"
 		case 3:
-			return "\x1b[" + r.param(h) + "M"
+			return kind, fmt.Sprintf("\x1b[=%du", r.n(32))
 		default:
-			if r.chance(1, 4) {
-				return "\x1b[r"
-			}
-			return "\x1b[" + r.smallParam(h) + ";" + r.smallParam(h) + "r"
+			return kind, "\x1b[?u"
 		}
-	case k < 76:
-		return r.sgr()
-	case k < 82: // modes
-		m := r.pick("1", "7", "9", "12", "25", "1000", "1002", "1003", "1004", "1005", "1006", "1015", "2004", "7", "7")
-		if p.altscr && r.chance(1, 3) {
-			m = "1049"
-		}
-		return "\x1b[?" + m + r.pick("h", "l")
-	case k < 86: // queries
-		return r.pick("\x1b[c", "\x1b[0c", "\x1b[>c", "\x1b[5n", "\x1b[6n", "\x1b[?u", "\x1b[1c", "\x1b[>0c")
-	case k < 90: // kitty keyboard
-		switch r.n(4) {
-		case 0:
-			return fmt.Sprintf("\x1b[=%d;%du", r.n(32), 1+r.n(3))
-		case 1:
-			return fmt.Sprintf("\x1b[>%du", r.n(32))
-		case 2:
-			return "\x1b[<" + r.pick("", "1", "2", "5") + "u"
-		default:
-			return "\x1b[?u"
-		}
-	case k < 94: // OSC / DCS / misc escapes
+	case kString:
 		switch r.n(6) {
 		case 0:
-			return "\x1b]" + r.pick("0", "2", "6", "7", "4", "52", "") + ";" + r.text(p.wide, 6) + r.pick("\x07", "\x1b\\")
+			return kind, "\x1b]" + r.pick("0", "2", "6", "7", "4", "52", "", "10", "112", "9999999999999999999999") + ";" + r.text(p.wide, 6) + r.pick("\x07", "\x1b\\")
 		case 1:
-			return "\x1bP" + r.text(false, 5) + "\x1b\\"
+			return kind, "\x1bP" + r.text(false, 5) + "\x1b\\"
 		case 2:
-			return r.pick("\x1b(B", "\x1b)0", "\x1b=", "\x1b>", "\x1bc", "\x1b#8", "\x1b%G", "\x1b 7")
+			return kind, r.pick("\x1b(B", "\x1b)0", "\x1b=", "\x1b>", "\x1bc", "\x1b#8", "\x1b%G", "\x1b 7", "\x1b7", "\x1b8", "\x1b\\", "\x1bZ")
 		case 3:
-			return r.pick("\x1b[4:3m", "\x1b[1 q", "\x1b[?1;2$y", "\x1b[>4;2m", "\x1b[>4m", "\x1b[!p", "\x1b[2\"q", "\x1b[%")
+			return kind, r.pick("\x1b[4:3m", "\x1b[1 q", "\x1b[?1;2$y", "\x1b[>4;2m", "\x1b[>4m", "\x1b[!p", "\x1b[2\"q", "\x1b[%", "\x1b[>4;1m", "\x1b[<1;2;3M", "\x1b[?25$p", "\x1b[38:2:1:2:3m")
 		case 4:
-			return "\x1b[" + r.pick("22", "23", "0") + "t"
+			return kind, "\x1b[" + r.pick("22", "23", "0") + "t"
 		default:
-			return "\x1b[" + fmt.Sprint(r.n(30)) + string(rune(0x40+r.n(63)))
+			return kind, "\x1b[" + fmt.Sprint(r.n(30)) + string(rune(0x40+r.n(63)))
 		}
-	default:
-		if p.hostile {
-			n := 1 + r.n(6)
-			b := make([]byte, n)
-			for i := range b {
-				b[i] = byte(r.n(256))
-			}
-			return string(b)
+	case kHostile:
+		n := 1 + r.n(6)
+		b := make([]byte, n)
+		for i := range b {
+			b[i] = byte(r.n(256))
 		}
-		return r.text(p.wide, w)
+		return kind, string(b)
 	}
+	return kText, r.text(p.wide, w)
 }
 
 func (r *rng) size() (int, int) {
@@ -270,7 +322,7 @@ func (r *rng) size() (int, int) {
 
 func (r *rng) genCase(id string, p profile, mode, grid int) genCase {
 	w, h := r.size()
-	c := genCase{id: id, mode: mode, grid: grid, w: w, h: h}
+	c := genCase{id: id, mode: mode, grid: grid, w: w, h: h, mask: p.mask}
 	nItems := 1 + r.n(p.maxItems)
 	var stream []byte
 	var cuts []int
@@ -278,7 +330,6 @@ func (r *rng) genCase(id string, p profile, mode, grid int) genCase {
 		if len(stream) == 0 {
 			return
 		}
-		// cut the stream into chunks
 		sort.Ints(cuts)
 		prev := 0
 		for _, ct := range cuts {
@@ -291,18 +342,41 @@ func (r *rng) genCase(id string, p profile, mode, grid int) genCase {
 		stream = nil
 		cuts = nil
 	}
+	if p.prefill {
+		// text on most rows, several styles, so that erase/scroll/resize have content to act on
+		pre := ""
+		for y := 0; y < h; y++ {
+			if r.chance(1, 5) {
+				pre += "\r\n"
+				continue
+			}
+			if r.chance(1, 2) {
+				pre += r.sgr()
+			}
+			pre += r.text(p.wide, w)
+			if y+1 < h {
+				pre += "\r\n"
+			}
+		}
+		pre += fmt.Sprintf("\x1b[%d;%dH", 1+r.n(h), 1+r.n(w))
+		c.ops = append(c.ops, genOp{kind: 110, data: []byte(pre), label: kText})
+	}
 	for i := 0; i < nItems; i++ {
-		if p.resize && r.chance(1, 8) {
+		kind, it := r.item(p, w, h)
+		if kind == kResize {
 			flush()
 			nw, nh := r.size()
 			if r.chance(1, 2) {
 				nw, nh = maxInt(1, w+r.n(5)-2), maxInt(1, h+r.n(5)-2)
 			}
-			c.ops = append(c.ops, genOp{kind: 111, a: nw, b: nh})
+			c.ops = append(c.ops, genOp{kind: 111, a: nw, b: nh, label: kResize})
 			w, h = nw, nh
 			continue
 		}
-		it := r.item(p, w, h)
+		if p.step {
+			c.ops = append(c.ops, genOp{kind: 110, data: []byte(it), label: kind})
+			continue
+		}
 		if r.chance(1, 3) {
 			cuts = append(cuts, len(stream))
 		}
@@ -324,7 +398,7 @@ func maxInt(a, b int) int {
 
 func writeCase(w *bufio.Writer, c genCase) {
 	fmt.Fprintf(w, "# %s\n", c.id)
-	fmt.Fprintf(w, "100 %d %d %d %d\n", c.mode, c.grid, c.w, c.h)
+	fmt.Fprintf(w, "100 %d %d %d %d %d\n", c.mode, c.grid, c.w, c.h, c.mask)
 	// width table for every multi-byte rune of the input
 	seen := map[rune]bool{}
 	fmt.Fprint(w, "101")
@@ -344,6 +418,9 @@ func writeCase(w *bufio.Writer, c genCase) {
 	}
 	fmt.Fprintln(w)
 	for _, op := range c.ops {
+		if op.label != 0 {
+			fmt.Fprintf(w, "105 %d\n", op.label)
+		}
 		switch op.kind {
 		case 110:
 			fmt.Fprint(w, "110")
@@ -358,10 +435,33 @@ func writeCase(w *bufio.Writer, c genCase) {
 	fmt.Fprintln(w, "199")
 }
 
+func weights(pairs ...int) [kCount]int {
+	var w [kCount]int
+	for i := 0; i+1 < len(pairs); i += 2 {
+		w[pairs[i]] = pairs[i+1]
+	}
+	return w
+}
+
+var allKinds = weights(kText, 30, kC0Move, 6, kOtherC0, 2, kCsiMove, 12, kErase, 10, kScroll, 6, kMargins, 3, kSgr, 10,
+	kMode, 5, kAltScr, 2, kQuery, 4, kKbd, 4, kString, 4, kResize, 6)
+
 var profiles = map[string]profile{
-	"mixed":   {wide: true, resize: true, altscr: true, cutAny: true, maxItems: 14},
-	"narrow":  {wide: false, resize: false, altscr: true, cutAny: false, maxItems: 14},
-	"hostile": {wide: true, resize: true, hostile: true, altscr: true, cutAny: true, maxItems: 16},
+	"mixed":   {wide: true, cutAny: true, maxItems: 14, weights: allKinds},
+	"narrow":  {wide: false, maxItems: 14, weights: allKinds},
+	"hostile": {wide: true, cutAny: true, maxItems: 16, mask: 1<<1 | 1<<2, weights: weights(kText, 20, kC0Move, 6, kOtherC0, 4, kCsiMove, 10, kErase, 8, kScroll, 8, kMargins, 4, kSgr, 6, kMode, 4, kAltScr, 2, kQuery, 2, kKbd, 2, kString, 6, kResize, 8, kHostile, 25)},
+	"stepall": {wide: true, step: true, prefill: true, maxItems: 12, weights: allKinds},
+	"c03":     {wide: true, step: true, prefill: true, maxItems: 12, weights: weights(kText, 55, kC0Move, 8, kCsiMove, 20, kSgr, 6, kMode, 8, kMargins, 3)},
+	"c04":     {wide: true, step: true, prefill: true, maxItems: 12, weights: weights(kText, 10, kC0Move, 30, kCsiMove, 45, kMargins, 10, kMode, 5)},
+	"c05":     {wide: true, step: true, prefill: true, maxItems: 10, weights: weights(kText, 15, kCsiMove, 25, kErase, 45, kSgr, 10, kC0Move, 5)},
+	"c06":     {wide: true, step: true, prefill: true, maxItems: 10, weights: weights(kText, 10, kCsiMove, 15, kScroll, 40, kMargins, 15, kC0Move, 15, kSgr, 5)},
+	"c07":     {wide: true, step: true, prefill: true, maxItems: 12, weights: weights(kText, 25, kSgr, 45, kErase, 15, kCsiMove, 10, kScroll, 5)},
+	"c09":     {wide: true, step: true, prefill: false, maxItems: 12, weights: weights(kText, 35, kString, 55, kOtherC0, 10)},
+	"c14":     {wide: true, cutAny: true, maxItems: 14, mask: 1<<1 | 1<<2 | 1<<4 | 1<<5, weights: weights(kText, 20, kCsiMove, 20, kQuery, 30, kKbd, 10, kAltScr, 5, kSgr, 5, kMode, 5, kString, 5)},
+	"c17":     {wide: true, step: true, prefill: true, maxItems: 14, weights: weights(kText, 25, kMode, 30, kAltScr, 20, kCsiMove, 8, kKbd, 6, kMargins, 4, kSgr, 4, kErase, 3)},
+	"c18":     {wide: true, step: true, prefill: true, maxItems: 10, weights: weights(kText, 25, kResize, 40, kCsiMove, 15, kMargins, 10, kC0Move, 5, kAltScr, 5)},
+	"c19":     {wide: false, step: true, maxItems: 60, mask: 1<<1 | 1<<2 | 1<<4 | 1<<5, weights: weights(kKbd, 80, kAltScr, 10, kText, 5, kQuery, 5)},
+	"c08":     {wide: true, cutAny: true, maxItems: 14, weights: weights(kText, 35, kC0Move, 8, kOtherC0, 2, kCsiMove, 12, kErase, 10, kScroll, 6, kMargins, 3, kSgr, 10, kMode, 5, kAltScr, 2, kQuery, 4, kKbd, 2, kString, 6)},
 }
 
 // genCases writes n cases of the profile for both buffer kinds.
